@@ -29,14 +29,18 @@ def run(ctx, res):
     bitio.rule_r_width(prog, res, which=("parse",))
     bitio.rule_p_pre(prog, res)
     bitio.rule_guard_cursor(prog, res, bitio.PARSE, 2)
-    m = framing.rules_new(prog, res)
+    # framing rules are imported only as far as the residue entries rely on them (and S-closed / A-err for the dead
+    # unreachable!() arm); clauses that belong to C03/C05 alone do not alarm here
+    import engine
+    fr = engine.Filtered(res, {"A-shape", "A-ext", "A-out", "A-err", "S-closed", "S-ok", "S-inc", "S-end", "S-shape", "I-iter", "N-pres", "A-len"})
+    m = framing.rules_new(prog, fr)
     if m.ok and len(m.oks) == 1:
-        framing.rule_n_pres(prog, res, m)
+        framing.rule_n_pres(prog, fr, m)
+    framing.rules_scan(prog, fr, m)
+    framing.rules_iter(prog, fr)
     panics.rule_acyclic(prog, res, cl, "DEC")
     panics.rule_no_interior_mutability(prog, res)
     dec = dispatch.decode_table(prog, res, rule="E-map")
-    framing.rules_scan(prog, res, m)
-    framing.rules_iter(prog, res)
     import fieldmodel
     fieldmodel.check_fields(prog, res, prop="C02")
     panics.check_residue_support(inv, res)
